@@ -3,9 +3,10 @@
    (negative for inc/convex, positive for dec/concave; STRICT, ties are not violations) con_order-th differences of beta;
    satisfies c beta = all those differences have the right sign (>= 0 resp. <= 0);
    con_form c beta v = sum over the positions violating IN beta of the squared differences OF v. *)
-From Coq Require Import List Reals.
+From Coq Require Import List Reals QArith Qreals.
 From PG Require Import Base.Ops Base.Vec Model.BSpline Model.Constraints Proofs.VecR Proofs.C03Basis Proofs.C03Row Proofs.C05 Proofs.C05Bound Proofs.C05Fibres
-  Proofs.C05ShapeDeriv Proofs.C05ShapeSum Proofs.C05ShapeModel Proofs.C05ShapeMono Proofs.C05ShapeConvex Proofs.C05ShapeFinal.
+  Proofs.C05ShapeDeriv Proofs.C05ShapeSum Proofs.C05ShapeModel Proofs.C05ShapeMono Proofs.C05ShapeConvex Proofs.C05ShapeFinal
+  Proofs.C05TensorSum Proofs.C05TensorShape Proofs.C05TensorQuad Proofs.C05TensorFinal.
 Import ListNotations.
 Open Scope R_scope.
 
@@ -224,7 +225,92 @@ Theorem C05_continuation_slope_is_boundary_derivative : forall n k, (1 <= k < n)
 Proof. exact continuation_slope. Qed.
 Print Assumptions C05_continuation_slope_is_boundary_derivative.
 
+(* ==================================================================================================================
+   Tensor terms (function level).  TensorTerm.build_columns on one data row is tensor_row rows = the iterated C-order
+   tensor_product (kron_row) of the marginal basis rows; the term's value is coef . tensor_row rows.
+     tensor_fun pre post ek0 ek1 n k coef x  = coef . tensor_row (pre ++ row_i(x) :: post)     (marginal i a spline (ek0,ek1,n,k);
+                                               pre/post = the basis rows of the marginals before/after i at FIXED other variables)
+     tensor2_fun ... coef x0 x1             = coef . (rowA(x0) (x) rowB(x1))                    (two spline marginals)
+   fibres dims i (Model/Constraints.v) are the index lists of TensorTerm._iterate_marginal_coef_slices (C05_tensor_fibres).
+   ================================================================================================================== *)
+
+(* contraction: for ANY coefficient tensor and ANY rows, the term value is the univariate spline of marginal i with the coefficient
+   vector contract coef P Q n (c'_k = sum_{a,q} P_a Q_q coef[a n B + k B + q]), P / Q = products of the rows before / after *)
+Theorem C05_tensor_contraction : forall coef P Q r, dotR coef (kron_row Rrops P (kron_row Rrops r Q)) = dotR (contract coef P Q (length r)) r.
+Proof. exact dot_contract. Qed.
+Print Assumptions C05_tensor_contraction.
+
+(* general number of marginals: every axis-i fibre of the coefficient tensor satisfies the constraint and the other marginals' basis
+   values are non-negative (true inside their knot ranges: C03_inside_nonneg_sum_support) => the function of x_i has the shape at
+   ALL real x_i, inside the range of marginal i and on its linear continuation *)
+Theorem C05_tensor_marginal_function_shape : forall cn pre post ek0 ek1 n k coef, (1 <= k < n)%nat ->
+  Forall (Forall (fun v => 0 <= v)) pre -> Forall (Forall (fun v => 0 <= v)) post ->
+  Forall (fun f => satisfies cn (gather Rrops coef f)) (fibres (map (@length R) pre ++ n :: map (@length R) post) (length pre)) ->
+  has_shape cn (tensor_fun pre post ek0 ek1 n k coef).
+Proof. exact tensor_marginal_shape. Qed.
+Print Assumptions C05_tensor_marginal_function_shape.
+
+(* two spline marginals, either axis, the other variable anywhere inside its knot range (both ends included) *)
+Theorem C05_tensor2_axis0_function_shape : forall cn eA0 eA1 nA kA eB0 eB1 nB kB coef x1,
+  (1 <= kA < nA)%nat -> (kB < nB)%nat -> eB0 <> eB1 -> Rmin eB0 eB1 <= x1 <= Rmax eB0 eB1 ->
+  Forall (fun f => satisfies cn (gather Rrops coef f)) (fibres [nA; nB] 0) ->
+  has_shape cn (fun x0 => tensor2_fun eA0 eA1 nA kA eB0 eB1 nB kB coef x0 x1).
+Proof. exact tensor2_axis0_shape. Qed.
+Print Assumptions C05_tensor2_axis0_function_shape.
+Theorem C05_tensor2_axis1_function_shape : forall cn eA0 eA1 nA kA eB0 eB1 nB kB coef x0,
+  (kA < nA)%nat -> (1 <= kB < nB)%nat -> eA0 <> eA1 -> Rmin eA0 eA1 <= x0 <= Rmax eA0 eA1 ->
+  Forall (fun f => satisfies cn (gather Rrops coef f)) (fibres [nA; nB] 1) ->
+  has_shape cn (fun x1 => tensor2_fun eA0 eA1 nA kA eB0 eB1 nB kB coef x0 x1).
+Proof. exact tensor2_axis1_shape. Qed.
+Print Assumptions C05_tensor2_axis1_function_shape.
+
+(* the model's TensorTerm._build_marginal_constraints (scatter of each slice's matrix through np.meshgrid, which transposes the
+   block) has the quadratic form  sum over the slices f of quad (C_f) (v restricted to f)  [rsumL = sum over a list] ... *)
+Theorem C05_tensor_marginal_constraint_quadform : forall ms i coef clam cl2 v, (i < length ms)%nat ->
+  length coef = nprod (map cm_n ms) -> length v = length coef ->
+  quadR (marginal_constraints Rrops ms i coef clam cl2) v =
+  rsumL (fun f => quadR (term_constraints Rrops (cm_n (nth i ms dcm)) (gather Rrops coef f) (cm_cons (nth i ms dcm)) clam cl2) (gather Rrops v f))
+        (fibres (map cm_n ms) i).
+Proof. exact marginal_constraints_quadform. Qed.
+Print Assumptions C05_tensor_marginal_constraint_quadform.
+(* ... TensorTerm.build_constraints is the sum over the marginals ... *)
+Theorem C05_tensor_constraints_quadform : forall ms coef clam cl2 v, length coef = nprod (map cm_n ms) ->
+  quadR (tensor_constraints Rrops ms coef clam cl2) v =
+  rsumL (fun i => quadR (marginal_constraints Rrops ms i coef clam cl2) v) (seq 0 (length ms)).
+Proof. exact tensor_constraints_quadform. Qed.
+Print Assumptions C05_tensor_constraints_quadform.
+(* ... and vanishes at the coefficients iff every slice along every axis satisfies every constraint of that axis' marginal *)
+Theorem C05_tensor_constraints_zero_iff : forall ms coef clam cl2, length coef = nprod (map cm_n ms) -> 0 < clam -> 0 <= cl2 ->
+  (quadR (tensor_constraints Rrops ms coef clam cl2) coef = 0 <->
+   forall i, (i < length ms)%nat ->
+     Forall (fun f => Forall (fun cn => satisfies cn (gather Rrops coef f)) (cm_cons (nth i ms dcm))) (fibres (map cm_n ms) i)).
+Proof. exact tensor_constraints_zero_iff. Qed.
+Print Assumptions C05_tensor_constraints_zero_iff.
+
+(* the combination: zero constraint form of the tensor term => every constrained marginal's function has its shape, the other
+   variables fixed anywhere inside their knot ranges (pre/post = their non-negative basis rows) *)
+Theorem C05_tensor_constraint_zero_implies_function_shape : forall ms pre post ek0 ek1 n k coef clam cl2,
+  (1 <= k < n)%nat -> map cm_n ms = map (@length R) pre ++ n :: map (@length R) post ->
+  Forall (Forall (fun v => 0 <= v)) pre -> Forall (Forall (fun v => 0 <= v)) post ->
+  length coef = nprod (map cm_n ms) -> 0 < clam -> 0 <= cl2 ->
+  quadR (tensor_constraints Rrops ms coef clam cl2) coef = 0 ->
+  Forall (fun cn => has_shape cn (tensor_fun pre post ek0 ek1 n k coef)) (cm_cons (nth (length pre) ms dcm)).
+Proof. exact tensor_constraint_zero_to_function. Qed.
+Print Assumptions C05_tensor_constraint_zero_implies_function_shape.
+
+(* the negative side = the mechanism of finding S16: a linearly continued basis row has a negative entry ... *)
+Theorem C05_continuation_row_has_negative_entry :
+  exists row, bspline_row Rfops 0 1 4 1 false (Q2R (-1 # 2)) = Some row /\ nth 1 row 0 < 0.
+Proof. exact continuation_row_has_negative_entry. Qed.
+Print Assumptions C05_continuation_row_has_negative_entry.
+(* ... so beyond the OTHER marginal's range the statement is false: all axis-0 fibres of s16_coef are non-decreasing, yet the
+   function of x0 at x1 = -1/2 (outside [0,1]) is not non-decreasing *)
+Theorem C05_tensor_shape_beyond_other_range_refuted :
+  Forall (fun f => satisfies CMonoInc (gather Rrops s16_coef f)) (fibres [4; 4]%nat 0) /\
+  ~ has_shape CMonoInc (fun x0 => tensor2_fun 0 1 4 1 0 1 4 1 s16_coef x0 (Q2R (-1 # 2))).
+Proof. exact tensor_shape_fails_beyond_other_range. Qed.
+Print Assumptions C05_tensor_shape_beyond_other_range_refuted.
+
 (* Concrete instances of the hypotheses and conclusions: Proofs/C05ShapeFinal.v shape_hypotheses_example, shape_values_example.
-   STILL _partial at function level: tensor terms.  Inside the knot range of the OTHER marginal a constrained marginal's
-   shape follows from the above because the other marginal's basis values are non-negative (not formalised); beyond that range
-   it is FALSE (candidate finding S16, harness/props/c05.py s16_witness).  Periodic ('cp') bases are not covered. *)
+   Instances of the tensor hypotheses: Proofs/C05TensorShape.v tensor_hypotheses_example, Proofs/C05TensorFinal.v tensor_zero_example; the refutation above is itself a computed instance.
+   STILL _partial: periodic ('cp') bases; tensor marginals with a `by` variable (a negative by-value flips the shape). *)
